@@ -3,6 +3,7 @@ package ast
 import (
 	"bytes"
 	"fmt"
+	"sort"
 	"strings"
 
 	"github.com/textwire/textwire/v2/token"
@@ -29,6 +30,9 @@ func (ol *ObjectLiteral) String() string {
 		k := fmt.Sprintf(`"%s": %s`, key, value.String())
 		pairs = append(pairs, k)
 	}
+
+	// map order is random
+	sort.Strings(pairs)
 
 	out.WriteString("{")
 	out.WriteString(strings.Join(pairs, ", "))
